@@ -388,6 +388,8 @@ BASE_LAWS = {
     "two_unis_two_laws": [["mku", "U0", [], None], ["mku", "U1", [], None], ["mkw", "W0", 0], ["mkw", "W1", 1]],
     "detached": [["mku", "U0", [], None], ["mku", "U1", [], None], ["mkw", "W0", 3], ["set_laws", "U0", None],
                  ["set_laws", "U1", "W0"]],
+    # a universe that contains another universe (and itself) while laws move around
+    "nested": [["mku", "U0", [], None], ["mku", "U1", ["U0"], None], ["u_add", "U1", "U1"], ["mkw", "W0", 0], ["mkw", "W1", 2]],
 }
 
 
